@@ -16,7 +16,7 @@ def run_check(tier, seed, replay=None):
     dres, _ = record_driver(wd, tier, seed + 2, traces=0, mutants=8,
                             streams=150 if tier == "quick" else 2500, maxlen=40000 if tier == "quick" else 64000)
     account(c, dres, "C05", "drivers+mutations")
-    critical_positions(c, wd, "C05", seed)
+    critical_positions(c, wd, "C05", seed, near=1 if tier == "quick" else 20)
     # every byte string up to a length
     sh = os.path.join(wd, "short.res")
     rc, _, _ = run([VH, "deflate-short", "--maxlen", str(2 if tier == "quick" else 3), "--out", sh, "--threads", "14"], 7200)
